@@ -20,6 +20,8 @@ for sid in ids:
     if not os.path.exists(os.path.join(d, "patch.diff")):
         continue
     meta = json.load(open(os.path.join(d, "meta.json")))
+    if meta.get("neutralised"):
+        print(f"{sid}: skipped (neutralised by a later repo fix)"); continue
     cs = checks or [meta["property"]]
     tmp = tempfile.mkdtemp(prefix="reseed_", dir="/tmp")
     wt = tmp + "/r"
